@@ -10,6 +10,7 @@ entity order) runs on
   (b) an expression/typing workload: the C02 expression generators and constant-operand variants,
   (c) a control-flow workload: the C01/C03/C04 body generators,
   (d) un-clocked sequential contexts (sensitivity lists)."""
+import re
 import random
 import keyword
 from collections import Counter
@@ -144,8 +145,10 @@ def naming_source(rnd, safe_members=False, safe_entities=False):
         m0, m1, m2 = 'lit_a', 'lit_b', 'lit_c'
     import re as _re
     _nrm = lambda n: _re.sub('_+', '_', n).strip('_').lower()      # noqa
-    if safe_entities and _nrm(Top) == _nrm(Sub):
+    if safe_entities is True and _nrm(Top) == _nrm(Sub):
         Sub = Sub.strip('_') + '_sub'
+    elif safe_entities == 'force':
+        Sub = 'zq_sub_entity'          # (only used when the emitted text contains two entities with the same name)
     uf = set([Top, Sub, En])
     fsub, cfn, pfn, coro, helper, param = (pyname(rnd, uf) for _ in range(6))
     n = [anyname(rnd) for _ in range(6)]
@@ -224,9 +227,14 @@ def run_naming(case):
             key = lambda v: (v['mech'], v['detail'].split(' ; ')[0])      # noqa
             flags = {}
             tagged = []
+            ent_names = [m.lower() for m in re.findall(r'(?mi)^\s*entity\s+(\w+)\s+is', comp.text)]
+            dup_entities = len(ent_names) != len(set(ent_names))
             for tag, flag in (('enum-literal-emitted-verbatim', 'safe_members'), ('entity-names-differ-only-in-case', 'safe_entities')):
                 trial = dict(flags)
-                trial[flag] = True
+                # two emitted entities with the same (case-insensitive) name: class names that differ only in case, or a
+                # name that collides after the uniquifying suffix (SIG -> SIG1 next to sig1); same mechanism: entity names
+                # are only made unique inside their own entity
+                trial[flag] = 'force' if (flag == 'safe_entities' and dup_entities) else True
                 src2, Top2, extra2 = naming_source(random.Random(case['seed']), **trial)
                 if src2 == src:
                     continue
